@@ -1,2 +1,178 @@
-(* C19 — placeholder while the correspondence is being established; theorems follow. *)
-From DV Require Import Lib.Base Activation.Activation Activation.Helper.
+(* C19 — auto-started services get held messages once, in order, or callers get
+   errors; the activation helper executes only for a valid name whose service
+   file declares that name, an Exec and a User.
+   Only theorem statements closed by [exact]; proofs live in Proofs/Activation*.v.
+   See notes/C19.md.  [after cf h] = (state, trace) of the model after history h;
+   [waiting tr n] = the calls for name n that have arrived and not met their fate,
+   in order of arrival, read off the observable trace (Spec/ActivationSpec.v). *)
+From DV Require Import Lib.Base Wire.Names Spec.NamesSpec Activation.Activation Activation.Helper Spec.ActivationSpec
+  Proofs.ActivationBase Proofs.ActivationInv Proofs.ActivationMain Proofs.ActivationHelper.
+From Coq Require Import Permutation.
+Local Open Scope N_scope.
+
+(* ---- bookkeeping = ledger: the entries of the pending activation of n are exactly the calls waiting for n, in arrival order *)
+Theorem C19_ledger : forall cf h st tr n, wk_services cf -> after cf h = (st, tr) ->
+  pend_entries st.(st_pend) n = map entry_of (waiting tr n).
+Proof. exact ledger. Qed.
+Print Assumptions C19_ledger.
+
+(* ---- exactly once, globally: no call ever meets two fates (delivery, StartServiceByName reply, error, or drop), and
+        every fate belongs to a call that arrived *)
+Theorem C19_one_fate : forall cf h st tr, wk_services cf -> after cf h = (st, tr) ->
+  NoDup (fated tr) /\ (forall i, In i (fated tr) -> exists c, In c (calls tr) /\ c.(c_id) = i).
+Proof. exact one_fate. Qed.
+Print Assumptions C19_one_fate.
+
+(* ---- at most one start per activation: a process is started for n only if nobody is waiting for n, one process per
+        step, for the call arriving in that step, which waits afterwards *)
+Theorem C19_spawn_once : forall cf h st tr e sid n x, wk_services cf -> after cf h = (st, tr) ->
+  In (OSpawn sid n x) (snd (step cf st e)) ->
+  waiting tr n = [] /\
+  snd (step cf st e) = [OSpawn sid n x] /\
+  (exists c, call_of (n_calls tr) e = [c] /\ c.(c_dest) = n /\ waiting (tr ++ [(e, snd (step cf st e))]) n = [c]).
+Proof. exact spawn_once. Qed.
+Print Assumptions C19_spawn_once.
+
+Theorem C19_no_spawn_while_waiting : forall cf h st tr e sid n x, wk_services cf -> after cf h = (st, tr) ->
+  waiting tr n <> [] -> ~ In (OSpawn sid n x) (snd (step cf st e)).
+Proof. exact no_spawn_while_waiting. Qed.
+Print Assumptions C19_no_spawn_while_waiting.
+
+(* ---- the service takes the name: held messages exactly once, in arrival order, subject to policy; StartServiceByName
+        callers answered; nothing is left waiting.  (Together with C19_one_fate: never again.) *)
+Theorem C19_held_once_in_order : forall cf h st tr c s k, wk_services cf -> after cf h = (st, tr) ->
+  connected st c = true -> assoc k st.(st_owners) = None ->
+  let W := waiting tr (Wk k) in
+  let o := snd (step cf st (ERequest c s k)) in
+  let allowed := fun w : call => cf.(pol_deliver) (k :: names_of st.(st_owners) c) w.(c_class) in
+  filter is_fwd o = map (fwd_to c) (filter (fun w => w.(c_auto) && live tr w.(c_conn) && allowed w) W) /\
+  filter is_err o = map (err_to EAccessDenied) (filter (fun w => w.(c_auto) && live tr w.(c_conn) && negb (allowed w)) W) /\
+  filter is_started o = map started_to (filter (fun w => live tr w.(c_conn) && negb w.(c_auto)) W) /\
+  In (ODrv c s 1) o /\
+  waiting (tr ++ [(ERequest c s k, o)]) (Wk k) = [].
+Proof. exact held_once_in_order. Qed.
+Print Assumptions C19_held_once_in_order.
+
+(* ---- failure: the started process exits with a status other than 0, is killed by a signal or cannot be executed: every
+        caller waiting for a name whose pending activation has the same Exec line is answered exactly once (connected:
+        error; gone: dropped), and those names have nobody waiting afterwards; other names are untouched *)
+Theorem C19_failure_each_waiter_once : forall cf h st tr sid r p er, wk_services cf -> after cf h = (st, tr) ->
+  find_sid sid st.(st_pend) = Some p -> child_error r = Some er ->
+  let o := snd (step cf st (EChild sid r)) in
+  let same := filter (fun q => p_exec q =? p_exec p) st.(st_pend) in
+  Permutation o (flat_map (fun q => map (fail_to tr er) (waiting tr q.(p_name))) same) /\
+  In p same /\
+  (forall q, In q same -> waiting (tr ++ [(EChild sid r, o)]) q.(p_name) = []) /\
+  (forall m, (forall q, In q same -> q.(p_name) <> m) -> waiting (tr ++ [(EChild sid r, o)]) m = waiting tr m).
+Proof. exact failure_each_waiter_once. Qed.
+Print Assumptions C19_failure_each_waiter_once.
+
+(* ---- the start timeout passes *)
+Theorem C19_timeout_each_waiter_once : forall cf h st tr sid p, wk_services cf -> after cf h = (st, tr) ->
+  find_sid sid st.(st_pend) = Some p ->
+  let o := snd (step cf st (ETimeout sid)) in
+  o = OKill sid :: map (fail_to tr ETimedOut) (waiting tr p.(p_name)) /\
+  waiting (tr ++ [(ETimeout sid, o)]) p.(p_name) = [] /\
+  (forall m, m <> p.(p_name) -> waiting (tr ++ [(ETimeout sid, o)]) m = waiting tr m).
+Proof. exact timeout_each_waiter_once. Qed.
+Print Assumptions C19_timeout_each_waiter_once.
+
+(* ---- exit status 0 before the name is taken changes nothing (the callers are answered when the timeout passes) *)
+Theorem C19_exit_zero_ignored : forall cf st sid, step cf st (EChild sid (Exited 0)) = (st, []).
+Proof. exact exit_zero_ignored. Qed.
+Print Assumptions C19_exit_zero_ignored.
+
+(* ---- F19.2.  The literal reading "the callers of the process that failed are answered" (and nobody else): *)
+Definition C19_failure_full_statement : Prop := forall cf h st tr sid r p er, wk_services cf -> after cf h = (st, tr) ->
+  find_sid sid st.(st_pend) = Some p -> child_error r = Some er ->
+  snd (step cf st (EChild sid r)) = map (fail_to tr er) (waiting tr p.(p_name)).
+
+(* holds when no other pending activation shares the Exec line ... *)
+Theorem C19_failure_own_name_partial : forall cf h st tr sid r p er, wk_services cf -> after cf h = (st, tr) ->
+  find_sid sid st.(st_pend) = Some p -> child_error r = Some er ->
+  (forall q, In q st.(st_pend) -> p_exec q = p_exec p -> q = p) ->
+  snd (step cf st (EChild sid r)) = map (fail_to tr er) (waiting tr p.(p_name)).
+Proof. exact failure_own_name_only. Qed.
+Print Assumptions C19_failure_own_name_partial.
+
+(* ... and fails otherwise: two names with one Exec line, the process of the first exits with status 3, the caller waiting
+   for the second is sent the error *)
+Theorem C19_failure_own_name_refuted :
+  let '(st, tr) := after f19_2_cfg f19_2_history in
+  exists p, find_sid 0 st.(st_pend) = Some p /\ p.(p_name) = Wk 1 /\
+  snd (step f19_2_cfg st (EChild 0 (Exited 3))) <> map (fail_to tr EChildExited) (waiting tr p.(p_name)) /\
+  In (OErr 1 1 1 EChildExited) (snd (step f19_2_cfg st (EChild 0 (Exited 3)))).
+Proof. exact failure_own_name_refuted. Qed.
+Print Assumptions C19_failure_own_name_refuted.
+
+(* ---- F19.1.  Without [wk_services] (a service file may declare a unique name) exactly-once is false: *)
+Definition C19_one_fate_full_statement : Prop := forall cf h, NoDup (fated (snd (after cf h))).
+
+Theorem C19_one_fate_refuted : ~ NoDup (fated (snd (after f19_1_cfg f19_1_history))).
+Proof. exact one_fate_refuted. Qed.
+Print Assumptions C19_one_fate_refuted.
+
+(* ... and a message held for the unique name is not delivered when the name gets its owner *)
+Theorem C19_unique_name_not_delivered :
+  let '(st, tr) := after f19_1_cfg f19_1_history2 in
+  owner_of st (Uq 2) = Some 2 /\ (waiting tr (Uq 2) <> []) /\ fated tr = [].
+Proof. exact held_for_unique_not_delivered. Qed.
+Print Assumptions C19_unique_name_not_delivered.
+
+(* ---- the helper: execv only for a name the validator accepts, whose file <name>.service in the first configured directory
+        where it loads declares exactly that name, an Exec line (parsed into argv as _dbus_shell_parse_argv does) and a User *)
+Theorem C19_helper : forall env name argv user, helper env name = HExec argv user ->
+  validate_bus_name name = true /\ env.(h_perm_ok) = true /\
+  exists pre d post content df ex,
+    env.(h_dirs) = pre ++ d :: post /\
+    lookup_file (name ++ DOT_SERVICE) d = Some content /\ desktop_load content = LOk df /\
+    (forall d', In d' pre -> lookup_file (name ++ DOT_SERVICE) d' = None \/
+                             exists c', lookup_file (name ++ DOT_SERVICE) d' = Some c' /\ desktop_load c' = LErr) /\
+    get_string df SECTION KEY_NAME = Some name /\
+    get_string df SECTION KEY_EXEC = Some ex /\
+    get_string df SECTION KEY_USER = Some user /\
+    env.(h_user_ok) user = true /\ shell_parse ex = ShOk argv.
+Proof. exact helper_sound. Qed.
+Print Assumptions C19_helper.
+
+(* the file is looked up inside the configured directory: an accepted name contains neither '/' nor NUL *)
+Theorem C19_helper_name_in_directory : forall name, validate_bus_name name = true -> ~ In 47 name /\ ~ In 0 name.
+Proof. exact name_stays_in_directory. Qed.
+Print Assumptions C19_helper_name_in_directory.
+
+(* "syntactically valid bus name": for names not starting with ':' the validator is the specification's grammar (C16) *)
+Theorem C19_helper_wellknown : forall env name argv user, helper env name = HExec argv user ->
+  (match name with 58 :: _ => False | _ => True end) -> spec_bus_name name = true.
+Proof. exact helper_name_wellknown. Qed.
+Print Assumptions C19_helper_wellknown.
+
+(* F19.3: for names starting with ':' it is not (C16/F2), so the literal statement fails *)
+Definition C19_helper_full_statement : Prop := forall env name argv user, helper env name = HExec argv user -> spec_bus_name name = true.
+
+Theorem C19_helper_refuted : exists env name argv user, helper env name = HExec argv user /\ spec_bus_name name = false.
+Proof. exact helper_full_refuted. Qed.
+Print Assumptions C19_helper_refuted.
+
+(* the model's fuel is never exhausted on files made of bytes *)
+Theorem C19_helper_total : forall env name,
+  (forall d f c, In d env.(h_dirs) -> In (f, c) d -> Proofs.Utf8Proofs.all_bytes c = true) -> helper env name <> HFault.
+Proof. exact helper_total. Qed.
+Print Assumptions C19_helper_total.
+
+(* ---- non-vacuity *)
+Example ex_wk_services : wk_services (std_cfg [mkService (Wk 1) 1 true; mkService (Wk 2) 1 true] 50).
+Proof. intros s [<-|[<-|[]]]; eexists; reflexivity. Qed.
+
+(* two callers and a StartServiceByName caller wait; one process is started; the name is taken: replies and messages in order *)
+Example ex_history :
+  snd (run (std_cfg [mkService (Wk 1) 1 true] 50) init
+           [EConnect; EConnect; ESend 0 1 (Wk 1) false 0; EStart 1 1 (Wk 1); ESend 1 2 (Wk 1) false 2; ESend 0 2 (Wk 1) false 0;
+            EConnect; ERequest 2 1 1])
+  = [[]; []; [OSpawn 0 (Wk 1) 1]; []; []; []; [];
+     [OStarted 1 1 1 1; OFwd 2 0 0 1; OErr 1 2 2 EAccessDenied; OFwd 2 3 0 2; ODrv 2 1 1]].
+Proof. vm_compute. reflexivity. Qed.
+
+Example ex_helper_ok : helper good_env [97; 46; 98] = HExec [[47; 120]; [99; 32; 100]] [114].
+Proof. exact helper_executes_good. Qed.
+Example ex_helper_other : helper good_env [97; 46; 99] = HExit EXIT_SERVICE_NOT_FOUND.
+Proof. exact helper_rejects_other_name. Qed.
